@@ -1653,6 +1653,11 @@ func (fr *Frame) builtin(t *ssa.Call, b *ssa.Builtin) {
 		unsup("clear on slice")
 	case "print", "println":
 		fr.vals[t] = Val{}
+	case "Sizeof", "Alignof":
+		// only emitted for operands whose type depends on a type parameter (otherwise a
+		// constant): the size is an arbitrary value, zero included
+		vc.assumed["unsafe."+b.Name()+" of a type-parameter value: arbitrary result (zero included)"] = true
+		fr.set(t, vc.freshConst("sizeof", bvSort(64)))
 	default:
 		unsup("builtin %s", b.Name())
 	}
